@@ -2,12 +2,40 @@
 import importlib
 import os
 import re
+import sys
 
 from .props_common import ASSUME_COMMON  # noqa: F401
 
-SPECS = {}
 _d = os.path.join(os.path.dirname(os.path.abspath(__file__)), "specs")
-for _fn in sorted(os.listdir(_d)):
-    _m = re.match(r"^c(\d\d)\.py$", _fn)
-    if _m:
-        SPECS["C" + _m.group(1)] = importlib.import_module("vf.specs." + _fn[:-3]).SPEC
+
+
+def get(pid):
+    return importlib.import_module("vf.specs." + pid.lower()).SPEC
+
+
+def available():
+    out = []
+    for fn in sorted(os.listdir(_d)):
+        m = re.match(r"^c(\d\d)\.py$", fn)
+        if m:
+            out.append("C" + m.group(1))
+    return out
+
+
+class _Specs(dict):
+    """Lazy mapping: a broken spec module of one property must not break the others."""
+
+    def __missing__(self, pid):
+        self[pid] = get(pid)
+        return self[pid]
+
+    def load_all(self):
+        for pid in available():
+            try:
+                self[pid]
+            except Exception as ex:  # noqa: BLE001
+                print("WARNING: spec %s not loadable: %r" % (pid, ex), file=sys.stderr)
+        return self
+
+
+SPECS = _Specs()
